@@ -510,15 +510,61 @@ class Body:
         return canon_call(self, c, args, site)
 
     # ------------------------------------------------------ path facts
+    def bool_arms(self, op, site, depth=0):
+        """for a bool operand that is (a copy / negation of) a local assigned constant true/false at
+        several sites (matches!, a && b as a value): list of (def_site, value); None otherwise"""
+        if op["k"] not in ("copy", "move") or op["place"]["proj"] or depth > 6:
+            return None
+        local = op["place"]["local"]
+        rds = self.reaching_defs(local, site)
+        if not rds or ("entry",) in rds:
+            return None
+        out = []
+        for d in rds:
+            bb, idx = d
+            blk = self.blocks[bb]
+            if idx >= len(blk["stmts"]):
+                return None
+            rv = blk["stmts"][idx]["rv"]
+            if rv["k"] == "use" and rv["op"]["k"] == "const" and "val" in rv["op"] and rv["op"]["ty"] == "bool":
+                out.append((d, bool(rv["op"]["val"])))
+            elif rv["k"] == "use" and rv["op"]["k"] in ("copy", "move") and len(rds) == 1:
+                return self.bool_arms(rv["op"], d, depth + 1)
+            elif rv["k"] == "unop" and rv["op"] == "Not" and len(rds) == 1:
+                sub = self.bool_arms(rv["x"], d, depth + 1)
+                return None if sub is None else [(s, not v) for s, v in sub]
+            else:
+                return None
+        return out if len(out) > 1 else None
+
+    def edge_facts(self, bb, label, phase1=None):
+        """set of normalised facts that hold on the edge out of block bb with switch label"""
+        if label is None:
+            return frozenset()
+        t = self.blocks[bb]["term"]
+        site = (bb, self.term_idx(bb))
+        if t["k"] != "switch":
+            return frozenset()   # a failed Assert panics: it is not a guard in the sense of the rules
+        if t["op_ty"] == "bool" and phase1 is not None:
+            arms = self.bool_arms(t["op"], site)
+            if arms is not None:
+                truth = (label[1] != 0) if label[0] == "eq" else (0 in label[1])
+                sel = [phase1.get(s[0], frozenset()) for s, v in arms if v == truth]
+                if sel:
+                    acc = sel[0]
+                    for x in sel[1:]:
+                        acc = acc & x
+                    return acc - phase1.get(bb, frozenset()) | frozenset()
+                return frozenset()
+        f = self.edge_fact(bb, label)
+        return frozenset([f]) if f is not None else frozenset()
+
     def edge_fact(self, bb, label):
         """normalised fact that holds on the edge out of block bb with switch label"""
         if label is None:
             return None
         t = self.blocks[bb]["term"]
         site = (bb, self.term_idx(bb))
-        if t["k"] == "assert":
-            cond = self.expr_operand(t["cond"], site)
-            return norm_cond(cond, bool(t["expected"]))
         if t["k"] != "switch":
             return None
         e = self.expr_operand(t["op"], site)
@@ -538,40 +584,45 @@ class Body:
             return ("in", e, frozenset([label[1]]))
         return ("notin", e, frozenset(label[1]))
 
-    def facts_in(self):
-        """must-hold facts at the entry of each block (forward, intersection at joins)"""
-        if self._facts_in is None:
-            nodes = self.rpo()
-            TOP = None
-            IN = {b: TOP for b in nodes}
-            IN[0] = frozenset()
-            changed = True
-            efc = {}
+    def _facts_fix(self, phase1):
+        nodes = self.rpo()
+        TOP = None
+        IN = {b: TOP for b in nodes}
+        IN[0] = frozenset()
+        changed = True
+        efc = {}
 
-            def ef(p, l):
-                k = (p, l)
-                if k not in efc:
-                    try:
-                        efc[k] = self.edge_fact(p, l)
-                    except RecursionError:
-                        efc[k] = None
-                return efc[k]
-            while changed:
-                changed = False
-                for b in nodes:
-                    if b == 0:
+        def ef(p, l):
+            k = (p, l)
+            if k not in efc:
+                try:
+                    efc[k] = self.edge_facts(p, l, phase1)
+                except RecursionError:
+                    efc[k] = frozenset()
+            return efc[k]
+        while changed:
+            changed = False
+            for b in nodes:
+                if b == 0:
+                    continue
+                acc = TOP
+                for p, l in self.pred[b]:
+                    if p not in IN or IN[p] is TOP:
                         continue
-                    acc = TOP
-                    for p, l in self.pred[b]:
-                        if p not in IN or IN[p] is TOP:
-                            continue
-                        f = ef(p, l)
-                        s = IN[p] | (frozenset([f]) if f is not None else frozenset())
-                        acc = s if acc is TOP else (acc & s)
-                    if acc is not TOP and acc != IN[b]:
-                        IN[b] = acc
-                        changed = True
-            self._facts_in = {b: (IN[b] if IN[b] is not None else frozenset()) for b in nodes}
+                    s = IN[p] | ef(p, l)
+                    acc = s if acc is TOP else (acc & s)
+                if acc is not TOP and acc != IN[b]:
+                    IN[b] = acc
+                    changed = True
+        return {b: (IN[b] if IN[b] is not None else frozenset()) for b in nodes}
+
+    def facts_in(self):
+        """must-hold facts at the entry of each block (forward, intersection at joins).  Two phases:
+        the second one resolves switches on bool locals that were assigned constants in several
+        guarded places (matches!, `a && b` as a value) using the first phase's facts at those places."""
+        if self._facts_in is None:
+            p1 = self._facts_fix(None)
+            self._facts_in = self._facts_fix(p1)
         return self._facts_in
 
     def facts_at(self, site):
